@@ -56,7 +56,7 @@ func r111(c *Ctx) {
 		}
 		switch class {
 		case "config", "runtime":
-			c.ob(rule, "Service."+f.Name()+"/read-by-MarshalJSON", mj.Pos(), len(readsOfFieldIn(mj, f)) > 0, true, class+" field must be saved")
+			c.ob(rule, "Service."+f.Name()+"/read-by-MarshalJSON", mj.Pos(), readsFieldVia(mj, f, mj.Params[0]), true, class+" field must be saved")
 			written := false
 			for _, w := range c.writesOfField(f) {
 				if w.fn == um {
@@ -393,4 +393,20 @@ func onlyErrNilGuards(in ssa.Instruction) bool {
 		}
 	}
 	return true
+}
+
+// readsFieldVia: fn obtains field f of base, directly or through an accessor method of the module.
+func readsFieldVia(fn *ssa.Function, f *types.Var, base ssa.Value) bool {
+	for _, b := range fn.Blocks {
+		for _, in := range b.Instrs {
+			v, ok := in.(ssa.Value)
+			if !ok {
+				continue
+			}
+			if fv, bs, ok := fieldLoad(v); ok && fv == f && bs == base {
+				return true
+			}
+		}
+	}
+	return false
 }
